@@ -191,13 +191,29 @@ def r6(ctx, prop=P, rule="C14.R6"):
                 ln = strip(o[3])
                 if ln[0] == "call" and ln[2] == RA_LEN and ln[3]:
                     tested = term_sig(ln[3][0])
+        # nothing else may decide whether this store is emptied: not another store's length, not the
+        # outcome of an earlier step (an interrupted overwrite must be completed by the retry)
+        extra = []
+        for o, tr, _ in dominating_conditions(fa, s):
+            if isinstance(o, tuple) and o[0] == "disc":
+                continue   # `?` / await protocol
+            if strip(o) == ("param", "overwrite") and tr is True:
+                continue
+            if isinstance(o, tuple) and o[0] == "bin" and o[1] == "Lt" and tr is True and term_is_lit(o[2], 0):
+                ln = strip(o[3])
+                if ln[0] == "call" and ln[2] == RA_LEN and ln[3] and term_sig(ln[3][0]) == recv:
+                    continue
+            extra.append("%s is %s" % (term_sig(o)[:80], tr))
         store = None
         for x in subterms(fa.arg_origin(s, 0)):
             if isinstance(x, tuple) and x[0] == "agg" and x[1].endswith("Store"):
                 store = x[2]
         same = tested is not None and tested == recv
-        ctx.check(prop, rule, "overwrite: the %s store that is tested is the one truncated" % (store or "?"), same and term_is_lit(fa.arg_origin(s, 1), 0),
-                  "if X.len() > 0 { X.truncate(0) } on the same backend", "truncate(0) at %s is applied to %s but the length test is on %s" % (loc(fa, s), recv[:80], (tested or "-")[:80]), [site_desc(fa, s)],
+        ctx.check(prop, rule, "overwrite: the %s store that is tested is the one truncated" % (store or "?"), same and term_is_lit(fa.arg_origin(s, 1), 0) and not extra,
+                  "if X.len() > 0 { X.truncate(0) } on the same backend, under `overwrite` alone",
+                  ("truncate(0) at %s is applied to %s but the length test is on %s" % (loc(fa, s), recv[:80], (tested or "-")[:80])) if not extra else
+                  ("emptying the %s store at %s additionally depends on [%s]: with overwrite = true a store can keep the bytes of a previous core (e.g. when an earlier overwrite was interrupted after the oplog had been emptied), which the memory backend can never show" % (store, loc(fa, s), "; ".join(extra))),
+                  [site_desc(fa, s)],
                   key="%s|%s|Storage::open|truncate target %s" % (prop, rule, store))
         if same:
             cleared.append(store)
